@@ -136,36 +136,14 @@ func checkC14(c *Ctx) {
 				return
 			}
 			n++
-			arg := call.Call.Args[1]
-			// must be phi/extract of V6Only / V4Only results only
-			okSrc := true
+			fl, okSrc := familyFilterLeaves(f, call.Call.Args[1])
 			var leaves []string
-			var walk func(v ssa.Value, d int)
-			walk = func(v ssa.Value, d int) {
-				if d > 6 {
-					okSrc = false
-					return
-				}
-				switch x := v.(type) {
-				case *ssa.Phi:
-					for _, e := range x.Edges {
-						walk(e, d+1)
-					}
-				case *ssa.Extract:
-					if cc, ok := x.Tuple.(*ssa.Call); ok && (calleeShort(&cc.Call) == "V6Only" || calleeShort(&cc.Call) == "V4Only") && x.Index == 0 {
-						leaves = append(leaves, calleeShort(&cc.Call))
-						want := calleeShort(&cc.Call) == "V6Only"
-						if !guarded(f, cc, Atom{"v6Support", want}) {
-							okSrc = false
-						}
-					} else {
-						okSrc = false
-					}
-				default:
+			for _, l := range fl {
+				leaves = append(leaves, l.name)
+				if !l.guardOK {
 					okSrc = false
 				}
 			}
-			walk(arg, 0)
 			r.Check(okSrc && len(leaves) > 0, "C14.4", "Select: "+calleeShort(&call.Call)+" receives the family-filtered subnets", call.Pos(), fnName(f), fmt.Sprintf("argument is %v", leaves),
 				"a selection routine is handed subnets that did not pass the family filter (or the filter of the wrong family): the phantom may be of the other address family")
 		})
@@ -401,6 +379,62 @@ func inputDerived(v ssa.Value, depth int, seen map[ssa.Value]bool) bool {
 		}
 	}
 	return false
+}
+
+// familyFilterLeaves: the calls of the address-family filters whose result #0 flows (through phis) into v. The
+// filter is called by name (V4Only(x) / V6Only(x)) or through a function value chosen among the two; guardOK says
+// that V6Only is the one applied exactly under v6Support and V4Only exactly under !v6Support. ok is false when
+// something other than a filter result flows into v.
+type familyLeaf struct {
+	call    *ssa.Call
+	name    string
+	guardOK bool
+}
+
+func familyFilterLeaves(f *ssa.Function, v ssa.Value) ([]familyLeaf, bool) {
+	ok := true
+	var out []familyLeaf
+	isFilter := func(n string) bool { return n == "V6Only" || n == "V4Only" }
+	var walk func(v ssa.Value, d int)
+	walk = func(v ssa.Value, d int) {
+		if d > 6 {
+			ok = false
+			return
+		}
+		switch x := v.(type) {
+		case *ssa.Phi:
+			for _, e := range x.Edges {
+				walk(e, d+1)
+			}
+		case *ssa.Extract:
+			cc, isCall := x.Tuple.(*ssa.Call)
+			if !isCall || x.Index != 0 {
+				ok = false
+				return
+			}
+			if n := calleeShort(&cc.Call); cc.Call.StaticCallee() != nil && isFilter(n) {
+				out = append(out, familyLeaf{cc, n, guarded(f, cc, Atom{"v6Support", n == "V6Only"})})
+				return
+			}
+			// a function value chosen among the two filters
+			if ph, isPhi := stripConv(cc.Call.Value).(*ssa.Phi); isPhi && !cc.Call.IsInvoke() {
+				for i, e := range ph.Edges {
+					fn, isFn := stripConv(e).(*ssa.Function)
+					if !isFn || !isFilter(fn.Name()) {
+						ok = false
+						return
+					}
+					out = append(out, familyLeaf{cc, fn.Name(), phiEdgeGuarded(f, ph, i, Atom{"v6Support", fn.Name() == "V6Only"}) && ph.Block().Dominates(cc.Block())})
+				}
+				return
+			}
+			ok = false
+		default:
+			ok = false
+		}
+	}
+	walk(v, 0)
+	return out, ok && len(out) > 0
 }
 
 // resliceOfInput: v is a re-slice (s[i:j]) of input storage, possibly carried round a loop (phi) or through
